@@ -690,6 +690,11 @@ class eval_abs(object):
             if not isinstance(a, ExprInt):
                 return ExprOp(e.op, *args)
 
+        if not e.op in self.deal_op:
+            # operator without a concrete evaluator (fadd, MMX, umul32_hi,
+            # div32, ...): keep it symbolic
+            return ExprOp(e.op, *args)
+
         args = [a.arg for a in args]
 
         types_tab = [type(a) for a  in args]
